@@ -232,6 +232,16 @@ def run(chk):
                 chk.violation("C09.limit", r, K.short(r), str(l), f"{q}: the size limit is enforced only under `{l}`: with the limit configured, some bodies (e.g. compressed ones framed by Content-Length) are accumulated without any bound")
             elif checks:
                 chk.ok("C09.limit", loop, f"{q}: accumulation `{K.short(acc[0], 40)}` and the size limit test are in the same loop")
+                # ... and what is compared with the limit grows with the accumulation (a per-chunk test bounds nothing)
+                r = checks[0]
+                sc_ = next((x for x in scopes if any(l is x for l in K.loop_ancestors(r))), loop)
+                gi = next((i for i in prog.enclosing(r, (ast.If,)) if any(nm in norm.raw(i.test) for nm in limit_names)), None)
+                if gi is not None:
+                    cum, seen = K.cumulative_in_loop(sc_, gi.test, repo)
+                    if cum:
+                        chk.ok("C09.limit", gi, f"{q}: the tested quantity is a running total (`{K.short(gi.test, 50)}`)")
+                    else:
+                        chk.violation("C09.limit", gi, norm.raw(gi.test), "a quantity increased in every iteration", f"{q}: the size test looks at one chunk at a time, not at the accumulated size")
             else:
                 # decoded form-data (no compression) is bounded by the raw size already checked
                 if q == "BaseRequest.post" and isinstance(loop, ast.AsyncFor) and "decode_iter(raw_data)" in norm.raw(loop.iter):
